@@ -168,6 +168,9 @@ func checkAccepted(t byte, b []byte, kind string) {
 		tr = "trailing"
 	}
 	out.Class("accepted/" + tn + "/" + kind + "/" + tr)
+	// a decoded message changed through a setter (as the broker does with a CONNECT: keep-alive, client
+	// id) must encode to the MQTT encoding of its new fields
+	modifyAfterDecode(t, in[:n], detail)
 	// a message object may be decoded into again: the second decode must not show anything of the first
 	reuseCheck(t, m, in[:n], detail)
 	// a copy obtained through Clone is a message of its own: changing it through the setters must
@@ -464,4 +467,68 @@ func reuseCheck(t byte, cur message.Message, wire []byte, detail map[string]inte
 		return
 	}
 	out.Count("c03.reuse.checked", 1)
+}
+
+// modifyAfterDecode decodes the packet once more, changes it through one or two setters and compares
+// the encoding with the reference encoding of the fields the message then reports.
+func modifyAfterDecode(t byte, wire []byte, detail map[string]interface{}) {
+	m, _, err, pan, _, _ := libDecode(t, append(make([]byte, 0, len(wire)), wire...))
+	if pan != nil || err != nil {
+		return
+	}
+	what := ""
+	func() {
+		defer func() {
+			if r := recover(); r != nil {
+				pan = r
+			}
+		}()
+		switch mm := m.(type) {
+		case *message.ConnectMessage:
+			mm.SetKeepAlive(mm.KeepAlive() + 7)
+			if len(wire)%2 == 0 {
+				mm.SetClientID([]byte("rewritten-id"))
+			}
+			if len(wire)%3 == 0 {
+				mm.SetCleanSession(!mm.CleanSession())
+			}
+			what = "SetKeepAlive/SetClientID/SetCleanSession"
+		case *message.PublishMessage:
+			if len(wire)%2 == 0 {
+				mm.SetPayload([]byte("other payload"))
+			} else {
+				mm.SetTopic([]byte("other/topic"))
+			}
+			what = "SetPayload/SetTopic"
+		case *message.SubscribeMessage:
+			mm.AddTopic([]byte("added/by/setter"), 1)
+			if ts := mm.Topics(); len(ts) > 1 && len(wire)%2 == 0 {
+				mm.RemoveTopic(append([]byte{}, ts[0]...))
+			}
+			what = "AddTopic/RemoveTopic"
+		case *message.UnsubscribeMessage:
+			mm.AddTopic([]byte("added/by/setter"))
+			if ts := mm.Topics(); len(ts) > 1 && len(wire)%2 == 0 {
+				mm.RemoveTopic(append([]byte{}, ts[0]...))
+			}
+			what = "AddTopic/RemoveTopic"
+		default:
+			what = ""
+		}
+	}()
+	if what == "" {
+		return
+	}
+	tn := rc.TypeName(t)
+	if pan != nil {
+		out.Violation("c03:modify-panic:"+tn, fmt.Sprint(pan), detail)
+		return
+	}
+	want := rc.Encode(canonical(libFields(m)))
+	b, ln, n, err, pan := libEncode(m)
+	if pan != nil || err != nil || ln != n || !bytes.Equal(b[:max(n, 0)], want) {
+		out.Violation("c03:modify-after-decode:"+tn, fmt.Sprintf("decoded, changed through %s, encoded: Len()=%d wrote %d err=%v panic=%v; bytes %s, MQTT encoding of its fields %s", what, ln, n, err, pan, hex(b[:max(n, 0)]), hex(want)), detail)
+		return
+	}
+	out.Count("c03.modify.checked", 1)
 }
